@@ -1,4 +1,4 @@
-// (no registered harnesses: a bounded harness of get_anti_indices on real Arrow arrays needed > 22 GB in CBMC and was dropped; see attempts/)
+// (no registered harnesses: Kani twins of the C05 units on real Arrow arrays do not finish, see attempts/)
 #[allow(unused_qualifications, unused_imports, dead_code, clippy::all)]
 mod verif_kani {
     use super::*;
